@@ -146,3 +146,140 @@ func runC12Key(c *Ctx, rel string, isParserPkg func(*types.Package) bool, stmtIf
 		})
 	})
 }
+
+// C12-K2 (what is cached was parsed as the session would parse it): the statement handed to the
+// session's prepared cache is produced by a parser entry point that takes the session's SQL mode
+// into account - a method with a ParserOptions parameter whose argument is `<SqlMode>.ParserOptions()`,
+// or the context-taking Parse (which loads the mode itself) - never by an option-less entry point:
+// with ANSI_QUOTES or PIPES_AS_CONCAT the same text parses to a different tree, so EXECUTE would
+// run something else than the inlined text. A statement received as a parameter is the caller's
+// obligation (reported as info).
+func runC12CacheParse(c *Ctx, rels []string, sqlRel string, floor int) {
+	const rule = "C12-K2"
+	c.Rule(rule, "every statement stored in the session's prepared cache comes from a parser entry point that applies the session's SQL mode (ParserOptions argument taken from SqlMode.ParserOptions(), or the context-taking Parse), never from an option-less parse", floor)
+	sqlPk := c.P.Pkg(sqlRel)
+	if sqlPk == nil {
+		c.Undecided(rule, sqlRel, 0, "package not loaded")
+		return
+	}
+	isStore := func(fn *types.Func) bool {
+		if fn == nil || fn.Name() != "PrepareQuery" || fn.Pkg() != sqlPk.Types {
+			return false
+		}
+		sig := fn.Type().(*types.Signature)
+		return sig.Recv() != nil && sig.Params().Len() == 2
+	}
+	n := 0
+	c.P.EachFuncDecl(rels, func(p *packages.Package, fd *ast.FuncDecl) {
+		if fd.Body == nil {
+			return
+		}
+		info := p.TypesInfo
+		params := map[types.Object]bool{}
+		for _, f := range fd.Type.Params.List {
+			for _, nm := range f.Names {
+				if o := info.Defs[nm]; o != nil {
+					params[o] = true
+				}
+			}
+		}
+		assigns := map[types.Object][]ast.Expr{}
+		ast.Inspect(fd.Body, func(m ast.Node) bool {
+			as, ok := m.(*ast.AssignStmt)
+			if !ok {
+				return true
+			}
+			for i, l := range as.Lhs {
+				id := identOf(l)
+				if id == nil {
+					continue
+				}
+				o := info.Defs[id]
+				if o == nil {
+					o = info.Uses[id]
+				}
+				if o == nil {
+					continue
+				}
+				if len(as.Rhs) == len(as.Lhs) {
+					assigns[o] = append(assigns[o], as.Rhs[i])
+				} else if len(as.Rhs) == 1 {
+					assigns[o] = append(assigns[o], as.Rhs[0])
+				}
+			}
+			return true
+		})
+		modeAware := func(e ast.Expr) (bool, string) {
+			call, ok := ast.Unparen(e).(*ast.CallExpr)
+			if !ok {
+				return false, "not a call: " + types.ExprString(e)
+			}
+			fn := Callee(info, call)
+			if fn == nil {
+				return false, "unresolved call " + types.ExprString(call.Fun)
+			}
+			sig := fn.Type().(*types.Signature)
+			for i := 0; i < sig.Params().Len() && i < len(call.Args); i++ {
+				if nt, ok := types.Unalias(sig.Params().At(i).Type()).(*types.Named); ok && nt.Obj().Name() == "ParserOptions" {
+					// the options must come from the SQL mode
+					arg := ast.Unparen(call.Args[i])
+					if id := identOf(arg); id != nil {
+						if rhs := assigns[info.Uses[id]]; len(rhs) == 1 {
+							arg = ast.Unparen(rhs[0])
+						}
+					}
+					if oc, ok := arg.(*ast.CallExpr); ok {
+						if of := Callee(info, oc); of != nil && of.Name() == "ParserOptions" && of.Pkg() == sqlPk.Types {
+							return true, ""
+						}
+					}
+					return false, fn.Name() + " is given options that do not come from SqlMode.ParserOptions()"
+				}
+			}
+			if fn.Name() == "Parse" && sig.Params().Len() >= 2 {
+				if pt, ok := sig.Params().At(0).Type().(*types.Pointer); ok {
+					if nt, ok := pt.Elem().(*types.Named); ok && nt.Obj().Name() == "Context" && nt.Obj().Pkg() == sqlPk.Types {
+						return true, ""
+					}
+				}
+			}
+			return false, fn.Name() + " takes no parser options: the session's SQL mode (ANSI_QUOTES, PIPES_AS_CONCAT) is not applied"
+		}
+		ast.Inspect(fd.Body, func(m ast.Node) bool {
+			call, ok := m.(*ast.CallExpr)
+			if !ok || !isStore(Callee(info, call)) {
+				return true
+			}
+			n++
+			key := fmt.Sprintf("%s.%s/cached %s", pkRel(p), DeclName(fd), types.ExprString(call.Args[1]))
+			id := identOf(call.Args[1])
+			if id == nil {
+				c.Undecided(rule, key, call.Pos(), "the cached statement is not a variable")
+				return true
+			}
+			o := info.Uses[id]
+			if params[o] {
+				c.Ok(rule, key, call.Pos(), "statement received as a parameter: parsed by the caller, handed through")
+				return true
+			}
+			bad := ""
+			for _, r := range assigns[o] {
+				if ok, why := modeAware(r); !ok {
+					bad = why
+				}
+			}
+			if len(assigns[o]) == 0 {
+				bad = "no assignment found"
+			}
+			if bad != "" {
+				c.Bad(rule, key, call.Pos(), fmt.Sprintf("%s stores %s in the prepared cache, but %s: EXECUTE then runs a tree the inlined text would not parse to under the session's SQL mode", DeclName(fd), id.Name, bad))
+			} else {
+				c.Ok(rule, key, call.Pos(), "parsed with the session's SQL mode")
+			}
+			return true
+		})
+	})
+	if n == 0 {
+		c.Undecided(rule, "PrepareQuery", 0, "no store into the prepared cache found")
+	}
+}
